@@ -120,6 +120,37 @@ func extractHandOver() {
 		})
 	}
 	addFact("handOverIsSynchronous", "Bool", boolLean(sync && callsSchedule), "the log consumer's callback hands the offset to the writer before it returns (no goroutine on that path)")
+	// writer.Schedule / writer.Send: ONE select with exactly two ways out — the job is in the queue, or the context is
+	// cancelled (node shutdown). Any further case (a timer, a default) lets a hand-over return without the job queued
+	// while the consumer commits the offset.
+	for _, fn := range []string{"Schedule", "Send"} {
+		fd := findFunc("wasp/writer.go", "*writer", fn)
+		if fd == nil || fd.Body == nil {
+			failf("wasp/writer.go: (*writer)." + fn + " not found")
+			continue
+		}
+		ok := false
+		if len(fd.Body.List) == 1 {
+			if sel, isSel := fd.Body.List[0].(*ast.SelectStmt); isSel && len(sel.Body.List) == 2 {
+				sends, dones := 0, 0
+				for _, cl := range sel.Body.List {
+					cc := cl.(*ast.CommClause)
+					switch c := cc.Comm.(type) {
+					case *ast.SendStmt:
+						if exprString(c.Chan) == "w.queue" && len(cc.Body) == 0 {
+							sends++
+						}
+					case *ast.ExprStmt:
+						if exprString(c.X) == "<-ctx.Done()" && len(cc.Body) == 0 {
+							dones++
+						}
+					}
+				}
+				ok = sends == 1 && dones == 1
+			}
+		}
+		addFact("writer"+fn+"QueuesOrStops", "Bool", boolLean(ok), "(*writer)."+fn+" returns only when the job is in the writer's queue or the context is cancelled")
+	}
 }
 
 func extractWiring() {
